@@ -6,7 +6,7 @@ from harness import graphs as G
 from harness import strategies as S
 from harness.core import Acc, HarnessError, Violation, lib, must, must_raise
 from harness.hyp import job_seed, run_property, scaled
-from props.gcommon import compare_sets, pdag_codes, result_set, signed_copy, to_np
+from props.gcommon import DTYPE_NAMES, compare_sets, pdag_codes, result_set, signed_copy, spoil, to_np
 
 PROP = "C10"
 RULE = ("imec(A, I) (shortcut and general path) and dag_to_icpdag(A, I) for every (DAG, I subset of nodes) pair on p<=4 nodes "
@@ -78,7 +78,7 @@ def check(case):
         elif var == "negated":
             A = -1.0 * to_np(D, float)
         else:
-            A = to_np(D, float if var in ("float", "nochain") else int)
+            A = to_np(D, var if var in DTYPE_NAMES else "float")
         keep = A.copy()
         Iset = set(I)
         kw = {"check_chain": False} if var == "nochain" else {}
@@ -89,6 +89,7 @@ def check(case):
         if ic.shape != (p, p) or G.rows_from_matrix(ic) != ug:
             raise Violation("icpdag_wrong", "dag_to_icpdag[%s](A=%s, I=%s) = %s, I-essential graph is %s"
                             % (var, case["A"], I, ic.astype(int).tolist(), G.lists_from_rows(ug)))
+        spoil(ic)
         if not (A == keep).all():
             raise Violation("input_modified", "imec / dag_to_icpdag modified the graph argument")
         lab.append("var_" + var)
@@ -111,7 +112,7 @@ def _check_p2i(utils, case):
     I = sorted(case["I"])
     d, u = G.split(P)
     bad_target = any(u[t] for t in I)
-    A = to_np(P, float if case.get("dtype") == "float" else int)
+    A = to_np(P, case.get("dtype", "int"))
     keep = A.copy()
     o = lib(utils.pdag_to_icpdag, A, set(I))
     lab = []
@@ -153,7 +154,7 @@ def _run_pairs(acc, job):
         if k % job["nshards"] != job["shard"]:
             continue
         for m, I in enumerate(subs):
-            variants = [["int"], ["float"], ["weighted"], ["nochain"]][(k + m) % 4]
+            variants = [["int"], ["float"], ["weighted"], ["nochain"], ["uint8"], ["bool"], ["weighted"], ["int32"]][(k + m) % 8]
             case = {"sub": "pairs_exh", "A": G.lists_from_rows(D), "I": I, "variants": variants, "salt": k + m,
                     "mono": (m == len(subs) - 1 and k % 5 == 0)}
             try:
@@ -171,7 +172,7 @@ def _run_p2i(acc, job):
         if k % job["nshards"] != job["shard"]:
             continue
         for m, I in enumerate(subs):
-            case = {"sub": "p2i_exh", "P": G.lists_from_rows(P), "I": I, "dtype": "float" if (code + m) % 2 else "int"}
+            case = {"sub": "p2i_exh", "P": G.lists_from_rows(P), "I": I, "dtype": DTYPE_NAMES[(code + m) % 6]}
             try:
                 lab = check(case)
                 acc.record(case, lab, _nontrivial(case, lab), by_construction=True, sample=((code + m) % 3989 == 1))
@@ -187,7 +188,7 @@ def _run_chain(acc, job):
         targets = [[], list(range(p))] + [[t] for t in range(p)] + [list(range(t)) for t in range(2, p)] + \
                   [[0, p - 1]] * (p >= 3) + [[t for t in range(p) if t % 2] for _ in (0,) if p >= 4]
         for I in targets:
-            variants = ["int", "float", "scaled", "weighted", "negated"] + (["nochain"] if p <= job["p_nochain"] else [])
+            variants = ["int", "float", "scaled", "weighted", "negated", "uint8", "bool"] + (["nochain"] if p <= job["p_nochain"] else [])
             case = {"sub": "chain", "A": G.lists_from_rows(chain), "I": I, "variants": variants, "salt": p + len(I)}
             try:
                 lab = check(case)
@@ -211,7 +212,7 @@ def _hyp_case(draw):
         for (i, j) in drop:
             A[i][j] = 0
     I = draw(st.lists(st.integers(0, p - 1), min_size=1, max_size=max(1, p // 2), unique=True))
-    return {"sub": "pairs_hyp", "A": A, "I": sorted(I), "variants": draw(st.sampled_from([["int"], ["float"], ["weighted"], ["nochain"]])),
+    return {"sub": "pairs_hyp", "A": A, "I": sorted(I), "variants": draw(st.sampled_from([["int"], ["float"], ["weighted"], ["nochain"], ["uint8"], ["bool"]])),
             "salt": draw(st.integers(0, 7)), "mono": draw(st.integers(0, 4)) == 0}
 
 
